@@ -56,7 +56,7 @@ theorem gnbi_fun (s : H) (nf af : Nat) : graph_get_node_by_id s = getNodeById (a
 theorem fdChild'_eq (r : NRef) (k : Key) (s : H) :
     fdChild' r k s = match k.toInt?.bind (graph_get_node_by_id s) with
       | some c => .ok (ForInStep.yield (s.setN r { s.n r with children := (s.n r).children ++ [c] }))
-      | none => .error (match k.toInt? with | some _ => PyErr.lookupError | none => .valueError) := by
+      | none => .error (match k.toInt? with | some _ => PyErr.lookupError | none => keyIntErr k) := by
   unfold fdChild' keyInt
   cases k.toInt? with
   | none => rfl
@@ -67,7 +67,7 @@ theorem fdChild'_eq (r : NRef) (k : Key) (s : H) :
 theorem fdParent'_eq (r : NRef) (k : Key) (s : H) :
     fdParent' r k s = match k.toInt?.bind (graph_get_node_by_id s) with
       | some p => .ok (ForInStep.yield (s.setN r { s.n r with parents := (s.n r).parents ++ [p] }))
-      | none => .error (match k.toInt? with | some _ => PyErr.lookupError | none => .valueError) := by
+      | none => .error (match k.toInt? with | some _ => PyErr.lookupError | none => keyIntErr k) := by
   unfold fdParent' keyInt
   cases k.toInt? with
   | none => rfl
